@@ -36,9 +36,14 @@ FIXTURE_IMPORTS = [
     ('from os import path as {n}', None),
     ('from collections import OrderedDict', ['OrderedDict']),
 ]
-STAR_IMPORTS = ['from fx_star import *', 'from fx_pkg.sub import *', 'from fx_glob import *']
+STAR_IMPORTS = ['from fx_star import *', 'from fx_pkg.sub import *', 'from fx_glob import *', 'from fx_all import *']
+# fx_all lists its exports in __all__ (a literal that is extended afterwards; underscore names included); the stdlib modules
+# build __all__ the same way (os: literal + extend + append under if / try; threading: literal)
 STAR_NAMES = {'from fx_star import *': ['s1', 's2', 'a'], 'from fx_pkg.sub import *': ['sa', 'sb'],
-              'from fx_glob import *': ['GLEVEL', 'gflag', 'gplain']}
+              'from fx_glob import *': ['GLEVEL', 'gflag', 'gplain'],
+              'from fx_all import *': ['_priv_e', 'pub_d', 'pub_a', '_priv_b', 'pub_c'],
+              'from os import *': ['getcwd', '_exit', 'sep', 'curdir'],
+              'from threading import *': ['Lock', 'Thread', 'local']}
 ALL_STAR_NAMES = {n for v in STAR_NAMES.values() for n in v}
 REL_IMPORTS = [('from . import sub', ['sub']), ('from .sub import sa as {n}', None), ('from . import rel as {n}', None)]
 # a module of the nested package fx_pkg.inner: relative imports of level 1 and 2 from one directory
